@@ -47,12 +47,12 @@ def num_check(pid, cases_quick, cases_thorough, variants=("base",), min_nt=(200,
 CHECKS = {}
 CHECKS["C01"] = num_check("C01", 10000, 160000)
 CHECKS["C02"] = num_check("C02", 4000, 100000)
-CHECKS["C03"] = num_check("C03", 3200, 100000)
-CHECKS["C04"] = num_check("C04", 20000, 600000)
-CHECKS["C05"] = num_check("C05", 8000, 250000)
-CHECKS["C06"] = num_check("C06", 40000, 1200000)
-CHECKS["C07"] = num_check("C07", 6400, 200000)
-CHECKS["C08"] = num_check("C08", 16000, 500000)
+CHECKS["C03"] = num_check("C03", 6400, 100000)
+CHECKS["C04"] = num_check("C04", 60000, 600000)
+CHECKS["C05"] = num_check("C05", 16000, 250000)
+CHECKS["C06"] = num_check("C06", 120000, 1200000)
+CHECKS["C07"] = num_check("C07", 12800, 200000)
+CHECKS["C08"] = num_check("C08", 32000, 500000)
 CHECKS["C09"] = num_check("C09", 1200, 14400, variants=("base", "opt"))
 
 C20_RULE = ("for each of 20 (richer, simpler) solution pairs and both scalar types rapidcheck generates the simpler solution's full parameter "
@@ -90,16 +90,16 @@ def hist_check(pid, cases_q, cases_t, rule, variant="exc", maxsize_q=100, maxsiz
 HIST_GEN = ("rapidcheck generates a vector of raw operation records (0..maxsize of them); each record is decoded against the CURRENT model state "
             "(handle slots, parameter/vector/evaluator indices modulo what exists, values from a magnitude-diverse decoder incl. +-0, denormals, 1e+-300, the marker) "
             "so every generated and every shrunk history is valid; the library is driven step by step next to a reference model and compared after every step; ")
-CHECKS["C10"] = hist_check("C10", 16000, 192000, HIST_GEN + "C10: every provided evaluator call is repeated and re-evaluated on a fresh handle holding the same parameters (bit equality), and the "
+CHECKS["C10"] = hist_check("C10", 48000, 192000, HIST_GEN + "C10: every provided evaluator call is repeated and re-evaluated on a fresh handle holding the same parameters (bit equality), and the "
                            "full parameter/vector snapshot of the evaluated handle must be unchanged; all handles of both precisions are audited at the end. Non-trivial: >= 2 provided evaluations "
                            "and a select of another handle or >= 2 inits in between. distinct = distinct decoded histories; evaluations = executed steps.")
-CHECKS["C11"] = hist_check("C11", 64000, 768000, HIST_GEN + "C11: set/get/init_param/purge/sanity/display/set_vec/get_vec against a per-handle map model, valid and invalid names, evaluations compared with a "
+CHECKS["C11"] = hist_check("C11", 128000, 768000, HIST_GEN + "C11: set/get/init_param/purge/sanity/display/set_vec/get_vec against a per-handle map model, valid and invalid names, evaluations compared with a "
                            "fresh handle that received only the final values. Non-trivial: an invalid-name operation, a purge or init_param, and a valid set in one history.")
-CHECKS["C12"] = hist_check("C12", 12000, 144000, HIST_GEN + "C12: init/select/re-init over 7 verbatim handle strings (incl. empty, blanks, case twins) in both precisions; after EVERY step every handle of both "
+CHECKS["C12"] = hist_check("C12", 24000, 144000, HIST_GEN + "C12: init/select/re-init over 7 verbatim handle strings (incl. empty, blanks, case twins) in both precisions; after EVERY step every handle of both "
                            "registries is selected in turn and compared with the model (isolation), masa_list_mms is parsed and compared. Non-trivial: >= 3 inits, a re-init of a live handle and two handles of one type.")
-CHECKS["C15"] = hist_check("C15", 32000, 384000, HIST_GEN + "C15: evaluator overloads outside the selected solution's capability set must return exactly -1.33, print (S)MASA ERROR, not throw, and leave every "
+CHECKS["C15"] = hist_check("C15", 48000, 384000, HIST_GEN + "C15: evaluator overloads outside the selected solution's capability set must return exactly -1.33, print (S)MASA ERROR, not throw, and leave every "
                            "parameter unchanged. Non-trivial: >= 3 such calls in one history.")
-CHECKS["C17"] = hist_check("C17", 48000, 576000, HIST_GEN + "C17: every extern \"C\" entry point (header-declared and cmasa.cpp-only) is called and followed by the <double> template call obtained from the NAMING "
+CHECKS["C17"] = hist_check("C17", 96000, 576000, HIST_GEN + "C17: every extern \"C\" entry point (header-declared and cmasa.cpp-only) is called and followed by the <double> template call obtained from the NAMING "
                            "convention at the same state: evaluators bitwise, statuses equal (non-zero cases generated: purge, empty vector, unknown names, the failing fixture), arrays through exact-size heap "
                            "buffers, masa_get_name into a sentinel-filled buffer. Non-trivial: >= 3 C calls interleaved with >= 1 C++ state change.")
 
@@ -128,7 +128,7 @@ CHECKS["C13"] = names_check("C13", 96000, 1200000,
     "Oracle: reference normaliser lower(s) without '-' and ' '; norm(s) in catalogue <=> masa_init returns, masa_get_name == norm(s), the handle is listed verbatim; otherwise int 1 is thrown after 'MASA FATAL ERROR' and "
     "masa_list_mms is unchanged (a pre-existing handle is registered first). Both scalar types, 7 handle strings. Non-trivial: decorated string != name containing a run of >= 2 adjacent separators or a leading/trailing one, or a near-miss negative; distinct by (string, handle, type).",
     ["exception build (-DMASA_EXCEPTIONS) observes rejections in-process; the exit() path of the same code is covered by C16's forked runs", "ASCII lower-casing (C locale)"])
-CHECKS["C14"] = names_check("C14", 320000, 3200000,
+CHECKS["C14"] = names_check("C14", 640000, 3200000,
     "exhaustive part: every name printed by masa_printid<double> / <long double> (equal lists, unique, own normal form, in spec/capabilities.json) is initialised in both scalar types; get_name, sanity_check == 0, "
     "init_param == 0 and get_dimension against the spec for every non-fixture entry. Generated part: rapidcheck draws (entry, scalar type, interior point in (0.05,0.95)^4, direction index) and calls EVERY evaluator of the entry's "
     "capability set with default parameters: finite and not -1.33. evaluations = enumerated entries + evaluator calls; distinct_nontrivial = distinct (entry, type, point).",
